@@ -352,6 +352,8 @@ int main(void)
 		else if (!strcmp(tok[0], "dnsenc")) op_dnsenc(tok, ntok);
 		else if (!strcmp(tok[0], "dnsdec")) op_dnsdec(tok, ntok);
 		else if (!strcmp(tok[0], "txt")) op_txt(tok, ntok);
+		else if (!strcmp(tok[0], "dnsns")) op_dnsns(tok, ntok);
+		else if (!strcmp(tok[0], "dnsa")) op_dnsa(tok, ntok);
 		else if (!strcmp(tok[0], "topdom")) op_topdom(tok, ntok);
 		else if (!strcmp(tok[0], "qdl")) op_qdl(tok, ntok);
 		else if (!strcmp(tok[0], "initusers")) op_initusers(tok, ntok, 0);
